@@ -8,6 +8,7 @@ import (
 	"io"
 	"io/fs"
 	"log/slog"
+	"maps"
 	"os"
 	"path"
 	"slices"
@@ -249,6 +250,10 @@ func (o *OCIDir) manifestPut(ctx context.Context, r ref.Ref, m manifest.Manifest
 		desc.Annotations = map[string]string{
 			aOCIRefName: r.Tag,
 		}
+	} else if _, ok := desc.Annotations[aOCIRefName]; ok {
+		// the descriptor was taken from the tagged entry of another layout, this push does not name a tag
+		desc.Annotations = maps.Clone(desc.Annotations)
+		delete(desc.Annotations, aOCIRefName)
 	}
 	// create manifest CAS file
 	dir := path.Join(r.Path, "blobs", desc.Digest.Algorithm().String())
